@@ -139,17 +139,20 @@ func (r *runningRoutine[K, V]) execute(
 			} else if r.k.routines[r.key] == r {
 				dur := r.retryBo.NextBackOff()
 				if dur != backoff.Stop {
-					r.deferRetry = time.AfterFunc(dur, func() {
+					var timer *time.Timer
+					timer = time.AfterFunc(dur, func() {
 						verifhook.Point("keyed.timer.retry", r.data)
 						verifhook.Point("keyed.lock", r.k)
 						r.k.mtx.Lock()
 						verifhook.Enter(r.k)
-						if r.k.ctx != nil && r.k.routines[r.key] == r && r.exited {
+						// a timer that fired before it was stopped must not restart anything
+						if r.deferRetry == timer && r.k.ctx != nil && r.k.routines[r.key] == r && r.exited {
 							r.start(r.k.ctx, r.exitedCh, true)
 						}
 						verifhook.Leave(r.k)
 						r.k.mtx.Unlock()
 					})
+					r.deferRetry = timer
 				}
 			}
 		}
